@@ -176,8 +176,8 @@ prop("C19", "exploration",
      "Running sender: see the assumptions of TestC19Run",
      [dict(pkg="confx", test="TestC19Conf", world="W0", quick=16000, thorough=600000,
            required_classes=["multi-source", "format-yaml", "format-json"]),
-      dict(pkg="wirex", test="TestC19Run", world="W3", needs_sts_binary=True, quick=96, thorough=3000, shards=16, shrinktime="60s", timeout=1500,
-           shrink_runs=12, required_classes=["files-under-several-tags", "tagged-file-without-dot", "several-priorities-on-the-wire", "deleting-tag", "non-http-tag"])],
+      dict(pkg="wirex", test="TestC19Run", world="W3", needs_sts_binary=True, quick=128, thorough=3000, shards=16, shrinktime="60s", timeout=1500,
+           shrink_runs=12, required_classes=["files-under-several-tags", "tagged-file-without-dot", "several-priorities-on-the-wire", "deleting-tag", "non-http-tag", "group-by-with-empty-capture"])],
      ["spellings follow the repository's tests and MarshalJSON: in JSON sizes, durations, tri-state options and error-backoff are strings, counts numbers",
       "running-sender clause (TestC19Run): the real binary twice - a receiver and a one-shot sender (one scan, send, poll, record, exit) with 1 thread - and the "
       "harness as a recording HTTP proxy between them; 2-9 files named <dir>/<leaf> (leaves with no, one or two dots), a default tag and 0-3 pattern tags "
@@ -199,7 +199,7 @@ prop("C17", "exploration",
      "lost answer, partial, cut, flipped byte); oracle = after a quiet period the current version of every name was transmitted in full, no version is delivered twice "
      "without a failed verdict, no arrival is a mixture (arrival monitor), ineligible files neither transmitted nor touched; non-trivial = a change made "
      "while requests were outstanding",
-     [dict(pkg="storex", test="TestC17Scan", world="W0", quick=6000, thorough=200000, required_classes=["symlink-to-file", "disabled-at-root"]),
+     [dict(pkg="storex", test="TestC17Scan", world="W0", quick=6000, thorough=200000, required_classes=["symlink-to-file", "disabled-at-root", "file-time-after-scan-start"]),
       dict(pkg="stagex", test="TestC17Sim", world="W1", quick=1000, thorough=40000, per_proc=60, shrink_runs=150,
            required_classes=["replaced-by-older-file", "change-during-transmission", "symlink-to-file-as-source"])],
      ["file ages are 5 min / 3 h against a minimum age of 0 / 2 h, so the wall clock cannot flip a verdict",
